@@ -117,7 +117,7 @@ fn quiet_block(bits: usize, n: usize, seed: u64) -> Vec<i32> {
 fn exec_byz_stream(case: &Case, w: &Workload, stats: &mut Stats) -> Option<Violation> {
     let res = pan::catch(|| {
         let mut src = SimSource::new(w);
-        let cfg = w.cfg.build(false, None, w.block);
+        let cfg = w.cfg.build(false, None, w.config_block());
         let r = flacenc::encode_with_fixed_block_size(&cfg, &mut src, w.block).map(|s| s.frame_count()).map_err(|e| format!("{e}"));
         (r, src.fired.clone(), src.reads)
     });
